@@ -74,13 +74,47 @@ def corpus(rng, thorough: bool) -> List[Tuple[str, bytes]]:
 #   ["set", p, form, bs]        c[p] = value          form V: np.void, A0: 0-d V array, S: bytes
 #   ["write", p, form, bs]      c[p][()] = value  (in place)                     SWrite (class V)
 #   ["del", p] ["copy", s, d] ["move", s, d]
-#   ["gcopy"|"gmove", g, q, [[s, d], ...]]   group copy/move; the pairs are the datasets below g
-#                                            (model: one SCopy/SMove per pair)
+#   ["gcopy"|"gmove", g, q]     group copy/move (model: one SCopy/SMove per dataset below g, see group_pairs)
 #   ["bnd"] ["reopen"] ["merge"]
+
+def group_pairs(ops, driver: str) -> List[List[List[str]]]:
+    """Per step: the (source, destination) dataset pairs a group copy/move stands for, i.e. the
+    datasets below the group at that moment.  Computed with a minimal liveness shadow of the
+    flat semantics (which names hold a dataset); only used to translate group operations into
+    model operations and to know which paths to observe."""
+    live: set = set()
+    out: List[List[List[str]]] = []
+    for op in ops:
+        k = op[0]
+        pairs: List[List[str]] = []
+        if k == "pack":
+            if op[1] not in live and (op[2] != MARK or driver == "h5"):
+                live.add(op[1])
+        elif k == "set":
+            if op[1] not in live and (op[3] != MARK or op[2] == "S" or driver == "h5"):
+                live.add(op[1])
+        elif k == "del":
+            live.discard(op[1])
+        elif k in ("copy", "move"):
+            if op[1] in live and op[2] not in live:
+                live.add(op[2])
+                if k == "move":
+                    live.discard(op[1])
+        elif k in ("gcopy", "gmove"):
+            pre = op[1] + "/"
+            pairs = [[p, op[2] + "/" + p[len(pre):]] for p in sorted(live) if p.startswith(pre)]
+            for s_, d_ in pairs:
+                live.add(d_)
+                if k == "gmove":
+                    live.discard(s_)
+        out.append(pairs)
+    return out
+
 
 def paths_of(ops) -> List[str]:
     out: List[str] = []
-    for op in ops:
+    gp = [a + b for a, b in zip(group_pairs(ops, "h5"), group_pairs(ops, "ih5"))]
+    for op, pairs in zip(ops, gp):
         k = op[0]
         ps = []
         if k in ("pack", "set", "write", "del"):
@@ -88,7 +122,7 @@ def paths_of(ops) -> List[str]:
         elif k in ("copy", "move"):
             ps = [op[1], op[2]]
         elif k in ("gcopy", "gmove"):
-            ps = [x for pr in op[3] for x in pr]
+            ps = [x for pr in pairs for x in pr]
         for p in ps:
             if p not in out:
                 out.append(p)
@@ -100,9 +134,9 @@ def templates(bs: bytes, other: bytes) -> List[List[Any]]:
     T = [
         [["pack", "f", bs], ["reopen"], ["bnd"], ["copy", "f", "a/g"], ["move", "f", "b/c/h"], ["merge"], ["reopen"]],
         [["pack", "a/f", bs], ["bnd"], ["copy", "a/f", "b/g"], ["bnd"], ["move", "b/g", "c/a/h"], ["pack", "a/x", other],
-         ["bnd"], ["gmove", "c", "q1", [["c/a/h", "q1/a/h"]]], ["reopen"], ["merge"], ["copy", "q1/a/h", "x"], ["reopen"]],
-        [["pack", "a/f", bs], ["pack", "a/g", other], ["bnd"], ["gcopy", "a", "q1", [["a/f", "q1/f"], ["a/g", "q1/g"]]],
-         ["del", "a/g"], ["bnd"], ["gmove", "a", "q2", [["a/f", "q2/f"]]], ["merge"], ["move", "q2/f", "f"], ["bnd"],
+         ["bnd"], ["gmove", "c", "q1"], ["reopen"], ["merge"], ["copy", "q1/a/h", "x"], ["reopen"]],
+        [["pack", "a/f", bs], ["pack", "a/g", other], ["bnd"], ["gcopy", "a", "q1"],
+         ["del", "a/g"], ["bnd"], ["gmove", "a", "q2"], ["merge"], ["move", "q2/f", "f"], ["bnd"],
          ["move", "f", "g"], ["move", "g", "f"], ["reopen"]],
         [["pack", "f", other], ["bnd"], ["del", "f"], ["pack", "f", bs], ["bnd"], ["move", "f", "g"], ["pack", "f", other],
          ["bnd"], ["del", "f"], ["merge"], ["copy", "g", "f"], ["bnd"], ["del", "g"], ["reopen"]],
@@ -116,8 +150,10 @@ def gen_history(rng, bs: bytes, pool: List[bytes], nops: int, with_marker: bool)
     """Random history around a tracked payload `bs`; a Python shadow of the flat semantics only
     biases generation towards accepted operations (it is not part of any comparison)."""
     live: Dict[str, bytes] = {}
+    strs: set = set()      # nodes of string type (form S): not written in place with opaque values
     bare: set = set()      # nodes created without metadata (MetadorGroup.copy of such a dataset fails: no metadata directory)
     burned: set = set()
+    tainted: set = set()   # targets of marker attempts: exist on plain HDF5 only, never reused
     qn = [0]
     ops: List[Any] = []
 
@@ -132,7 +168,7 @@ def gen_history(rng, bs: bytes, pool: List[bytes], nops: int, with_marker: bool)
                 p = f"{rng.choice(gs)}/{leaf}"
             else:
                 p = f"{rng.choice(gs)}/{rng.choice(GROUPS)}/{leaf}"
-            if p not in live:
+            if p not in live and p not in tainted:
                 return p
         return None
 
@@ -140,6 +176,8 @@ def gen_history(rng, bs: bytes, pool: List[bytes], nops: int, with_marker: bool)
     ops.append(["pack", p0, bs])
     if bs != MARK:
         live[p0] = bs
+    else:
+        tainted.add(p0)
     while len(ops) < nops:
         kind = rng.choices(
             ["pack", "copy", "move", "del", "gmove", "gcopy", "bnd", "reopen", "merge", "set", "write", "bad", "marker"],
@@ -153,6 +191,8 @@ def gen_history(rng, bs: bytes, pool: List[bytes], nops: int, with_marker: bool)
             ops.append(["pack", p, b])
             if b != MARK:
                 live[p] = b
+            else:
+                tainted.add(p)
         elif kind in ("copy", "move") and ex:
             s, d = rng.choice(ex), fresh()
             if d is None or (kind == "copy" and s in bare):
@@ -160,6 +200,8 @@ def gen_history(rng, bs: bytes, pool: List[bytes], nops: int, with_marker: bool)
             if s in bare:
                 bare.discard(s)
                 bare.add(d)
+            if s in strs:
+                strs.add(d)
             ops.append([kind, s, d])
             live[d] = live[s]
             if kind == "move":
@@ -176,11 +218,13 @@ def gen_history(rng, bs: bytes, pool: List[bytes], nops: int, with_marker: bool)
             qn[0] += 1
             q = f"q{qn[0]}"
             pairs = [[p, q + p[len(g):]] for p in ex if p.startswith(g + "/")]
-            ops.append([kind, g, q, pairs])
+            ops.append([kind, g, q])
             for s, d in pairs:
                 live[d] = live[s]
                 if s in bare:
                     bare.add(d)
+                if s in strs:
+                    strs.add(d)
                 if kind == "gmove":
                     del live[s]
                     bare.discard(s)
@@ -197,8 +241,10 @@ def gen_history(rng, bs: bytes, pool: List[bytes], nops: int, with_marker: bool)
             ops.append(["set", p, form, b])
             live[p] = b
             bare.add(p)
+            if form == "S":
+                strs.add(p)
         elif kind == "write":
-            cands = [p for p in ex if len(live[p]) >= 1]
+            cands = [p for p in ex if len(live[p]) >= 1 and p not in strs]
             if not cands:
                 continue
             p = rng.choice(cands)
@@ -226,12 +272,14 @@ def gen_history(rng, bs: bytes, pool: List[bytes], nops: int, with_marker: bool)
                 p = fresh()
                 if p:
                     ops.append(["pack", p, MARK])
+                    tainted.add(p)
             elif c == 1:
                 p = fresh()
                 if p:
                     ops.append(["set", p, rng.choice(["V", "A0"]), MARK])
+                    tainted.add(p)
             else:
-                ones = [p for p in ex if len(live[p]) == 1]
+                ones = [p for p in ex if len(live[p]) == 1 and p not in strs]
                 if ones:
                     ops.append(["write", rng.choice(ones), rng.choice(["V", "S", "A0"]), MARK])
                 else:
@@ -262,7 +310,7 @@ def model_ops(ops, driver: str) -> Tuple[List[Any], List[Tuple[int, int]]]:
     operations ((-1, -1): no model operation, the step must be accepted)."""
     mops: List[Any] = []
     spans: List[Tuple[int, int]] = []
-    for op in ops:
+    for op, pairs in zip(ops, group_pairs(ops, driver)):
         k = op[0]
         start = len(mops)
         if k == "pack":
@@ -274,7 +322,7 @@ def model_ops(ops, driver: str) -> Tuple[List[Any], List[Tuple[int, int]]]:
         elif k in ("del", "copy", "move"):
             mops.append(list(op))
         elif k in ("gcopy", "gmove"):
-            for s, d in op[3]:
+            for s, d in pairs:
                 mops.append(["copy" if k == "gcopy" else "move", s, d])
         elif k in ("bnd", "reopen", "merge"):
             if driver != "h5":
@@ -520,7 +568,11 @@ def oracle(case, result) -> Optional[Dict[str, Any]]:
                 labels[op[1]] = (op[3], False, "S" if op[2] == "S" else "V")
             elif k == "write":
                 old = labels.get(op[1])
-                labels[op[1]] = (op[3], False, old[2] if old else "V")
+                was = prev.get(op[1])
+                if was and len(was[1]) == len(op[3]):
+                    labels[op[1]] = (op[3], False, old[2] if old else "V")
+                else:
+                    labels.pop(op[1], None)     # h5py pads/truncates to the dataset's size: outside the property
             elif k == "del":
                 labels.pop(op[1], None)
             elif k == "copy":
@@ -582,6 +634,9 @@ def compare(case, result, mres, last) -> Optional[Dict[str, Any]]:
             return None      # plain HDF5 has no marker; the model describes the IH5 drivers from here on
         k0, j = last[i]
         if j < 0:
+            if op[0] in ("gcopy", "gmove"):
+                prev = dict(zip(result["paths"], obs))
+                continue          # a group without datasets below it: nothing the flat model speaks about
             want_ok = "T"
             want_obs = None
         else:
@@ -687,7 +742,7 @@ def run(ctx: vlib.Ctx):
         take = ts if not ctx.quick else [ts[idx % len(ts)]]
         for h in take:
             cases += [(drv, [list(ANCHOR)] + h) for drv in DRIVERS]
-        for r in range(ctx.budget(1, 5) if len(b) < 10000 else 1):
+        for r in range(ctx.budget(1, 3) if len(b) < 10000 else 1):
             h = [list(ANCHOR)] + gen_history(rng, b, pool, rng.randint(6, ctx.budget(12, 18)), with_marker=rng.random() < 0.35)
             drvs = DRIVERS if not ctx.quick else ["h5", ("ih5", "mf")[(idx + r) % 2]]
             cases += [(drv, h) for drv in drvs]
@@ -709,7 +764,7 @@ def run(ctx: vlib.Ctx):
     mcases, lasts = [], []
     for drv, h in cases:
         mo, last = model_ops(h, drv)
-        big = sum(len(x) for o in h for x in o if isinstance(x, bytes)) > 20000
+        big = sum(len(x) for o in h for x in o if isinstance(x, bytes)) > 6000
         mcases.append(["hist", False, not big, paths_of(h), mo])
         lasts.append(last)
     t0 = _t.time()
